@@ -117,6 +117,30 @@ func c12Rules(p *core.Prog, r *core.Run) {
 			cons = append(cons, core.Closures(f)...)
 		}
 	}
+	// what reaches the resolver as a decoded message was made by the decoder:
+	// a message built any other way (decoded from another format, patched up
+	// by hand) does not carry the Go types the decoder's table promises
+	nFetch := 0
+	for _, f := range cons {
+		if f.Pkg == nil || f.Pkg.Pkg.Path() != DNS || f.Signature.Results().Len() != 2 {
+			continue
+		}
+		if pt, ok := f.Signature.Results().At(0).Type().(*types.Pointer); !ok || !strings.HasSuffix(pt.Elem().String(), "dns.Message") {
+			continue
+		}
+		nFetch++
+		for i, ret := range core.Returns(f) {
+			okR := true
+			for _, a := range p.X(ret.Results[0]).Alts() {
+				fromDec := a.Op == "ext" && a.Name == "#0" && len(a.Args) == 1 && a.Args[0].Op == "call" && (a.Args[0].Fn == dec || a.Args[0].Fn != nil && a.Args[0].Fn != f && handlesDecoded(a.Args[0].Fn))
+				if !(a.Op == "const" && a.Name == "nil") && !fromDec {
+					okR = false
+				}
+			}
+			r.Check("C12.T4", fmt.Sprintf("%s:returns-decoded#%d", p.FuncName(f), i), okR, p.InstrPos(ret), "the message handed to the resolver is what DecodeMessage returned (or nil): %s", short(p.X(ret.Results[0])))
+		}
+	}
+	r.Check("C12.T4", "fetch:returns-decoded", nFetch >= 1, p.Pos(rs.Pos()), "functions of the codec's package that fetch a message for the resolver: %d", nFetch)
 	r.Analysed(funcNames(p, cons)...)
 	assertOK := func(ta *ssa.TypeAssert) (bool, string) { return c12Assert(p, ta, table) }
 	indexSafetyWith(p, r, "C12.T2", append(append([]*ssa.Function{}, scope...), cons...), 8, assertOK)
